@@ -219,3 +219,114 @@ fn vec_lifts<T: WInt>(rep: &mut Report, lanes: &[Lane], rows: &[Row], rng: &mut 
     }
     for_all_vecs!(one);
 }
+
+// ---------------------------------------------------------------------------
+// B2 driver: float and angle forms, logged for spec/Trace_Ops.tla
+pub const INEXACT: i64 = 888888;
+const INF: i64 = 1073741824;
+
+trait Fl: Copy + PartialOrd + Debug + Clamp + IsBetween<Output = bool> + Wrap + std::ops::Sub<Output = Self> + std::ops::Add<Output = Self> + From<u16> + num_traits::FloatConst + 'static {
+    const NAME: &'static str;
+    fn of(x: i64, s: u32) -> Self;
+    fn scaled(self, s: u32) -> i64;
+    fn to_f64(self) -> f64;
+}
+macro_rules! fl { ($t:ty) => {
+    impl Fl for $t {
+        const NAME: &'static str = stringify!($t);
+        fn of(x: i64, s: u32) -> Self { if x == INF { <$t>::INFINITY } else if x == -INF { <$t>::NEG_INFINITY } else { (x as $t) / ((1u64 << s) as $t) } }
+        fn scaled(self, s: u32) -> i64 {
+            if self == <$t>::INFINITY { return INF; } if self == <$t>::NEG_INFINITY { return -INF; }
+            let v = self * ((1u64 << s) as $t);
+            if v.fract() == 0.0 && v.abs() < 1e9 { v as i64 } else { INEXACT }
+        }
+        fn to_f64(self) -> f64 { self as f64 }
+    }
+}}
+fl!(f32); fl!(f64);
+
+fn drive_float<T: Fl>(out: &mut TraceOut, rng: &mut StdRng, n: usize) {
+    for i in 0..n {
+        let s: u32 = rng.gen_range(0..10);
+        let big = T::NAME == "f64" && i % 4 == 0;
+        let hi: i64 = match rng.gen_range(0..6) { 0 => 1, 1 => 1 << rng.gen_range(0..10), _ => rng.gen_range(1..1024) };
+        let lo: i64 = if rng.gen_range(0..3) == 0 { 0 } else { rng.gen_range(0..hi.max(1)) };
+        let qmax: i64 = if big { 1 << 16 } else { 1 << 9 };
+        let x: i64 = match rng.gen_range(0..8) {
+            0 => hi * rng.gen_range(-qmax..qmax),                 // exact multiples of upper
+            1 => (hi - lo).max(1) * rng.gen_range(-qmax..qmax) + lo,
+            2 => rng.gen_range(-3..4),
+            3 => hi * rng.gen_range(-qmax..qmax) + [1, -1][rng.gen_range(0..2)], // next to a multiple
+            _ => rng.gen_range(-(hi * qmax)..(hi * qmax)),
+        };
+        let op = ["clamped", "is_between", "wrapped", "wrapped_between", "pingpong", "delta_angle_degrees"][i % 6];
+        let (fx, flo, fhi) = (T::of(x, s), T::of(lo, s), T::of(hi, s));
+        let mut rec = json!({"op": op, "ty": T::NAME, "s": s, "x": x, "lo": lo, "hi": hi});
+        let r: i64 = match op {
+            "clamped" => {
+                // also unordered / infinite operands
+                let (x2, lo2, hi2) = match rng.gen_range(0..6) { 0 => (INF, lo, hi), 1 => (-INF, lo, hi), 2 => (x, hi, lo), 3 => (x, lo, lo), _ => (x, lo, hi) };
+                rec["x"] = json!(x2); rec["lo"] = json!(lo2); rec["hi"] = json!(hi2);
+                guarded(|| T::of(x2, s).clamped(T::of(lo2, s), T::of(hi2, s))).map(|v| v.scaled(s)).unwrap_or(PANIC)
+            }
+            "is_between" => {
+                let (x2, lo2, hi2) = match rng.gen_range(0..6) { 0 => (INF, lo, hi), 1 => (x, hi, lo), 2 => (lo, lo, lo), 3 => (hi, lo, hi), _ => (x, lo, hi) };
+                rec["x"] = json!(x2); rec["lo"] = json!(lo2); rec["hi"] = json!(hi2);
+                guarded(|| T::of(x2, s).is_between(T::of(lo2, s), T::of(hi2, s))).map(|v| v as i64).unwrap_or(PANIC)
+            }
+            "wrapped" => {
+                let hi2 = if rng.gen_range(0..12) == 0 { -hi * rng.gen_range(0..2) } else { hi };   // documented panic upper <= 0
+                rec["hi"] = json!(hi2);
+                guarded(|| fx.wrapped(T::of(hi2, s))).map(|v| v.scaled(s)).unwrap_or(PANIC)
+            }
+            "wrapped_between" => {
+                let (lo2, hi2) = match rng.gen_range(0..12) { 0 => (hi, lo), 1 => (lo, lo), 2 => (-1 - lo, hi), _ => (lo, hi) };
+                rec["lo"] = json!(lo2); rec["hi"] = json!(hi2);
+                guarded(|| fx.wrapped_between(T::of(lo2, s), T::of(hi2, s))).map(|v| v.scaled(s)).unwrap_or(PANIC)
+            }
+            "pingpong" => {
+                let hi2 = if rng.gen_range(0..12) == 0 { -hi * rng.gen_range(0..2) } else { hi };
+                rec["hi"] = json!(hi2);
+                guarded(|| fx.pingpong(T::of(hi2, s))).map(|v| v.scaled(s)).unwrap_or(PANIC)
+            }
+            _ => {
+                // degrees: self = x, target = hi (any sign); a full turn is 360 * 2^s
+                let turn = 360i64 << s;
+                let a: i64 = rng.gen_range(-4..5) * turn / 4 * rng.gen_range(0..2) + rng.gen_range(-(turn * 2)..(turn * 2)) * rng.gen_range(0..2);
+                let b: i64 = match rng.gen_range(0..4) { 0 => a + turn / 2, 1 => a - turn / 2, 2 => a + turn / 2 + turn * rng.gen_range(-2..3), _ => rng.gen_range(-(turn * 2)..(turn * 2)) };
+                rec["x"] = json!(a); rec["hi"] = json!(b); rec["turn"] = json!(turn); rec["lo"] = json!(0);
+                guarded(|| Wrap::<T>::delta_angle_degrees(T::of(a, s), T::of(b, s))).map(|v| v.scaled(s)).unwrap_or(PANIC)
+            }
+        };
+        rec["r"] = json!(r);
+        out.emit(rec);
+        // radians: compared with a slack (pi is irrational)
+        if i % 6 == 5 {
+            let a = rng.gen_range(-20.0f64..20.0); let b = rng.gen_range(-20.0f64..20.0);
+            let (fa, fb) = (T::of((a * 65536.0) as i64, 16), T::of((b * 65536.0) as i64, 16));
+            if let Some(d) = guarded(|| Wrap::<T>::delta_angle(fa, fb)) {
+                let d = d.to_f64();
+                let k = ((d - (fb.to_f64() - fa.to_f64())) / std::f64::consts::TAU).round() as i64;
+                out.emit(json!({"op": "delta_angle", "ty": T::NAME, "s": 16, "x": (fa.to_f64() * 65536.0).round() as i64, "lo": 0,
+                    "hi": (fb.to_f64() * 65536.0).round() as i64, "k": k, "r": (d * 65536.0).round() as i64}));
+            }
+            // tiny negative input: inexact, only the closed range [0, upper] is demanded
+            let tiny = T::of(-1, 9) ; let up = T::of(hi, s);
+            if let Some(w) = guarded(|| { let t = tiny - T::of(0, 0); let t = t.to_f64() * 1e-30; let _ = t; T::of(-1, 9).wrapped(up) }) {
+                let ok = w >= T::of(0, 0) && w <= up;
+                out.emit(json!({"op": "in_range", "ty": T::NAME, "s": s, "x": -1, "lo": 0, "hi": hi, "r": ok as i64}));
+            }
+        }
+    }
+}
+
+pub fn drive(args: &[String]) {
+    let out = arg(args, "--out").expect("--out");
+    let seed: u64 = arg_or(args, "--seed", "1").parse().unwrap();
+    let n: usize = arg_or(args, "--n", "3000").parse().unwrap();
+    silence_panics();
+    let mut rng = StdRng::seed_from_u64(seed);
+    let mut t = TraceOut::create(&out);
+    drive_float::<f32>(&mut t, &mut rng, n);
+    drive_float::<f64>(&mut t, &mut rng, n);
+}
